@@ -56,8 +56,27 @@ def single_case(draw, mode):
     return {'defs': G.defs, 'expr': r, 'probe': draw(st.lists(st.integers(0, 1000), min_size=8, max_size=8))}
 
 
+@st.composite
+def borderline_case(draw, mode):
+    """Constructions the library normally refuses (shape-changing strict diagonal, non-square observation matrix).
+    If a (modified) library accepts them, the resulting instance must still not carry a false tag."""
+    what = draw(st.sampled_from(['diag_unit_axis', 'diag_unit_axis', 'toast_nonsquare']))
+    if what == 'diag_unit_axis':
+        k = draw(st.integers(2, 3))
+        other = [draw(st.integers(1, 3)) for _ in range(draw(st.integers(0, 1)))]
+        leaves = [St.leaf([1] + other, 'float32'), St.leaf([k] + [draw(st.integers(1, 2))], 'float32')]
+        if draw(st.booleans()):
+            leaves.reverse()
+        S = {'t': draw(st.sampled_from(['tuple', 'list'])), 'items': leaves}
+        vals = [draw(st.sampled_from([2.0, -1.0, 3.0, 0.5])) for _ in range(k)]
+        return {'special': what, 'S': S, 'vals': vals, 'axis': 0, 'probe': [1] * 8}
+    r, c = draw(st.sampled_from([(4, 3), (3, 4), (2, 5), (5, 2)]))
+    vals = draw(st.lists(st.sampled_from([0, 0, 1, -1, 2]), min_size=r * c, max_size=r * c))
+    return {'special': what, 'matrix': np.asarray(vals, dtype=float).reshape(r, c).tolist(), 'probe': [1] * 8}
+
+
 def strategy(tier, mode):
-    return st.one_of(single_case(mode), single_case(mode), single_case(mode),
+    return st.one_of(borderline_case(mode), single_case(mode), single_case(mode), single_case(mode),
                      gen.expression_case(mode, cap=16, max_len=3, depth=2),
                      gen.expression_case(mode, cap=16, max_len=3, depth=2, allow_cg=True))
 
@@ -94,9 +113,59 @@ def _classes_in(op, acc):
                 _classes_in(o, acc)
 
 
+def _check_borderline(case):
+    import jax
+    import jax.numpy as jnp
+    import lineax as lx
+
+    what = case['special']
+    try:
+        if what == 'diag_unit_axis':
+            from furax._base.diagonal import DiagonalOperator
+
+            op = DiagonalOperator(jnp.asarray(case['vals'], jnp.float32), axis_destination=case['axis'],
+                                  in_structure=St.to_jax(case['S']))
+        else:
+            op = ops.build_toast({'in': {'dtype': 'float32'}, 'matrix': case['matrix']})
+    except Exception as e:  # noqa: BLE001  (refusing such a construction is the normal behaviour)
+        return {'nontrivial': False, 'classes': ['borderline:' + what, 'refused:' + type(e).__name__]}
+    name = type(op).__name__
+    ins = op.in_structure()
+    leaves, treedef = jax.tree.flatten(ins)
+    n = sum(int(np.prod(l.shape)) for l in leaves)
+    cols = []
+    for j in range(n):
+        e = np.zeros(n)
+        e[j] = 1.0
+        parts, pos = [], 0
+        for l in leaves:
+            sz = int(np.prod(l.shape))
+            parts.append(jnp.asarray(e[pos:pos + sz].reshape(l.shape), dtype=l.dtype))
+            pos += sz
+        y = must_not_raise('borderline-mv', op.mv, jax.tree.unflatten(treedef, parts))
+        cols.append(St.flat_of_value(y))
+        if j == 0:
+            yl, ytd = jax.tree.flatten(y)
+            same = ytd == treedef and all(tuple(a.shape) == tuple(b.shape) for a, b in zip(yl, leaves))
+    M = np.stack(cols, axis=1)
+    if type(op).out_structure is type(op).in_structure and not same:
+        raise Violation(f'square:{name}', f'{name} is declared square but mv changes the structure ({what})')
+    for t in TAGS:
+        if getattr(lx, t)(op):
+            if M.shape[0] != M.shape[1]:
+                raise Violation(f'{t}:{name}', f'{name} answers {t} but its matrix is {M.shape} ({what})')
+            if t == 'is_symmetric' and not np.array_equal(M, M.T):
+                raise Violation(f'{t}:{name}', f'{name} is tagged symmetric but M != M^T ({what})')
+            if t == 'is_diagonal' and np.abs(M - np.diag(np.diag(M))).max(initial=0.0) > 0:
+                raise Violation(f'{t}:{name}', f'{name} is tagged diagonal but has off-diagonal entries ({what})')
+    return {'nontrivial': True, 'classes': ['borderline:' + what, 'accepted']}
+
+
 def check(case, mode):
     import lineax as lx
 
+    if case.get('special'):
+        return _check_borderline(case)
     defs = case.get('defs', [])
     den = ops.denote_case(case)
     op = must_not_raise('build', ops.build_case, case)
